@@ -63,7 +63,16 @@ func TestCheck(t *testing.T) {
 		fired[p] = 0
 	}
 
+	reached := map[string]int64{} // 1 = this shard visited the point at least once (summed over shards by the driver)
+	for _, p := range reactx.Points {
+		reached[p] = 0
+	}
 	report := func(i int, sc *reactx.Scenario, res *reactx.Result) {
+		for p, n := range res.Hits {
+			if n > 0 {
+				reached[p] = 1
+			}
+		}
 		for _, f := range res.Findings {
 			if strings.HasPrefix(f.Kind, reactx.KUndecided) {
 				run.Inconclusive(fmt.Sprintf("case %d: %s: %s", i, f.Kind, f.What))
@@ -133,6 +142,7 @@ func TestCheck(t *testing.T) {
 	})
 	agg.Report(run)
 	run.Set("matrix_size", fmt.Sprint(M))
+	run.Set("hook_points_reached_in_n_shards", reached)
 	run.Set("matrix_fired_by_point", fired)
 	run.Set("matrix_cells_never_fired", unfired)
 }
